@@ -194,8 +194,8 @@ def o1c(h):
     h.encoded(C.get_closest_distance)
     n = 8 if h.thorough() else 4
     h.bounds('%d candidate edges, every combination of real signed distances' % n)
-    h.outside('Contact.py neighbour search (get_potential_interaction_list / min_dist_squared), closest-edge field weights and the smoothed two-edge distance '
-              '(EdgeCpp.smooth_distance) are not encoded')
+    h.outside('Contact.py neighbour search (get_potential_interaction_list / min_dist_squared) is not encoded; closest edge / field weights: '
+              'O1.closest_edge_and_field_weights; smoothed two-edge distance: O6.smooth_distance')
     h.assume_note('stub: EdgeCpp.cpp_distance(edge_k, p) is replaced at trace and replay time by the arbitrary real edge_k[0,0] '
                   '(its actual value is the subject of O1.cpp_distance); only the selection logic of get_closest_distance is encoded here')
 
@@ -1302,7 +1302,10 @@ DESIGNED_NOT_REGISTERED = [
      'relational 2x2 solves (unknown at 60 s); registered on the parallel family (exact first-moment identity, bounds, support) instead'),
     ('O2.sphere_monolithic', 'penalty energy with Levelset.sphere as one query (4-6 sample square roots + edge Jacobians, 28+ reals): unknown at 60 s; registered as a cut-lemma '
      'chain (radius sign lemma per sample, Jacobian sign lemma per edge, goals with those definitions dropped)'),
-    ('O1.smooth_distance', 'EdgeCpp.smooth_distance (two-edge smoothed distance) is not part of the C16 statement and is not encoded'),
+    ('O6.smooth_distance_monolithic', 'EdgeCpp.smooth_distance symmetry/bounds as one query over the real cpp, real normals (sqrt) and real smooth min in both edge orders: '
+     'unknown at 60 s; registered as a chain (lemma on the real SmoothFunctions.min, structure lemmas with normals and smooth min abstracted, goals on the renamed model)'),
+    ('O1.closest_edge_with_real_cpp_distance', 'selection logic of get_closest_distance / get_closest_edge with the real cpp_distance inlined per edge (3 sqrt per edge): '
+     '18 s to unknown at 60 s for 3 edges; registered with cpp_distance cut at the function boundary (arbitrary value per edge), its value being O1.cpp_distance'),
 ]
 
 
@@ -1458,7 +1461,7 @@ def smooth_distance_obligations(h):
         return concrete
     base = list(pre) + c.side(True)
     for k in range(n_struct):
-        h.prove('smooth_distance.' + atoms[k].name, base, atoms[k], inputs=c.inp, concrete=conc(k), cap=200 if h.thorough() else 60,
+        h.prove('smooth_distance.' + atoms[k].name, base, atoms[k], inputs=c.inp, concrete=conc(k), cap=20 if h.thorough() else 5, order=('nlsat', 'core'),
                 note='structure lemma, proven on the encoding of the code (normals and smooth min abstracted)')
 
     # ---- goals on the abstracted model: a1+a2, pd0, pd1, |n0 x n1|, tol_eff and the two smooth-min results renamed to free reals; the structure lemmas above
